@@ -331,7 +331,7 @@ def parse_rw(arg: str):
     mo = re.search(r'min=(\d+)', tail)
     if mo:
         mn = int(mo.group(1))
-    return rule, parts[0], parts[1], mn
+    return rule, parts[0], parts[1].replace('\\&', '&'), mn
 
 
 def apply_rw(text: str, rule, rx, repl, mn, log):
@@ -635,6 +635,11 @@ def _emit_fn(g, meta, tmpl, rel, src, m, ctx, name, kv, subs):
         sig = re.sub(r'\bfn\s+' + re.escape(name) + r'\b', 'fn ' + newname, sig, count=1)
     if 'ret' in kv:
         sig = _name_ret(sig, kv['ret'])
+    if 'where' in kv:
+        # extra trait bounds needed when a trait-impl method is verified as an inherent function (the bounds of the
+        # original impl header are restated on the function)
+        sig = sig.rstrip() + ' where ' + kv['where'] + ' '
+        rwlog.append(dict(rule='R8', what='impl-header bounds restated on the fn: ' + kv['where'], applied=1))
     if kv.get('vis') != 'keep':
         sig2 = re.sub(r'^\s*pub\s*\([^)]*\)\s*', 'pub ', sig)
         if sig2 != sig:
